@@ -441,6 +441,22 @@ func (p *Prog) generateOne(fn *ssa.Function, sp *spec.FuncSpec, splits []splitVa
 		if o := vc.oblige(kind, props, exitReach, t, c.Src, fmt.Sprintf("%s:%d", relFile(c.File), c.Line)); o != nil {
 			o.Clause = c
 		}
+		// vacuity probe: the antecedent of a conditional postcondition must be reachable at the
+		// exit (an unreachable one makes the clause say nothing -- e.g. a contradictory
+		// precondition, or a predicate that silently evaluates to false)
+		if b, ok := c.E.(*spec.Binary); ok && b.Op == "==>" {
+			if a, err := env.evalBool(b.X); err == nil {
+				ck := "cover-ensures"
+				if c.Label != "" {
+					ck += ":" + c.Label
+				}
+				if o := vc.oblige(ck, props, And(exitReach, a), False, "antecedent reachable: "+b.X.String(), fmt.Sprintf("%s:%d", relFile(c.File), c.Line)); o != nil {
+					o.ExpectSat = true
+					vc.cmds = vc.cmds[:len(vc.cmds)-1]
+					o.AssumeIdx = -1
+				}
+			}
+		}
 	}
 	for _, r := range refs {
 		rpost := map[string]SV{}
